@@ -433,9 +433,13 @@ bool DependencyScan::RecomputeNodeDirty(Node* node, std::vector<Node*>* stack,
 
   bool dirty = false;
   edge->outputs_ready_ = true;
-  edge->deps_missing_ = false;
 
   const bool edge_deps_loaded = edge->deps_loaded_;
+  // Discovered dependencies are loaded on the first visit only.  When the edge
+  // is visited again (dyndep information arrived during the build) the outcome
+  // of that load still holds: missing deps keep the edge dirty.
+  if (!edge_deps_loaded)
+    edge->deps_missing_ = false;
   if (!edge->deps_loaded_) {
     // This is our first encounter with this edge.
     edge->deps_loaded_ = true;
@@ -518,6 +522,8 @@ bool DependencyScan::RecomputeNodeDirty(Node* node, std::vector<Node*>* stack,
       else
         dirty = edge->deps_missing_ = true;
     }
+  } else if (edge->deps_missing_) {
+    dirty = true;
   }
 
   // Finally, visit each output and update their dirty state if necessary.
